@@ -110,6 +110,15 @@ type stEnv struct {
 	cur   StateSet
 	vals  map[ssa.Value]StateSet
 	alias map[ssa.Value]bool
+	// bs: boolean φ-values computed from tests on a state-valued variable
+	// (e.g. handshaking := state == closed || state == cookieWait): the sets of
+	// states that variable can hold when the boolean is true / false.
+	bs map[ssa.Value]boolSets
+}
+
+type boolSets struct {
+	v    ssa.Value
+	t, f StateSet
 }
 
 func (a stEnv) clone() stEnv {
@@ -120,6 +129,12 @@ func (a stEnv) clone() stEnv {
 	for k, v := range a.alias {
 		if v {
 			n.alias[k] = true
+		}
+	}
+	if len(a.bs) > 0 {
+		n.bs = make(map[ssa.Value]boolSets, len(a.bs))
+		for k, v := range a.bs {
+			n.bs[k] = v
 		}
 	}
 	return n
@@ -146,6 +161,25 @@ func joinEnv(a, b stEnv) (stEnv, bool) {
 				delete(a.alias, k)
 				changed = true
 			}
+		}
+	}
+	for k, v := range b.bs {
+		old, ok := a.bs[k]
+		switch {
+		case !ok:
+			if a.bs == nil {
+				a.bs = map[ssa.Value]boolSets{}
+			}
+			a.bs[k] = v
+			changed = true
+		case old.v != v.v:
+			if old.t != ^StateSet(0) {
+				a.bs[k] = boolSets{old.v, ^StateSet(0), ^StateSet(0)}
+				changed = true
+			}
+		case old.t|v.t != old.t || old.f|v.f != old.f:
+			a.bs[k] = boolSets{old.v, old.t | v.t, old.f | v.f}
+			changed = true
 		}
 	}
 	return a, changed
@@ -298,11 +332,14 @@ func (r *StateRun) analyze(fn *ssa.Function, entryEnv stEnv) StateSet {
 				fe := r.Edges[b]
 				fe[si] = true
 				r.Edges[b] = fe
+				e.edgeBools(&nenv, b, succ)
 				propagate(ins, succ.Index, nenv, &work, inWork)
 			}
 		} else {
 			for _, succ := range b.Succs {
-				propagate(ins, succ.Index, env.clone(), &work, inWork)
+				nenv := env.clone()
+				e.edgeBools(&nenv, b, succ)
+				propagate(ins, succ.Index, nenv, &work, inWork)
 			}
 		}
 	}
@@ -423,6 +460,30 @@ func (r *StateRun) call(cc *ssa.CallCommon, site ssa.Instruction, env *stEnv) {
 func (e *stateEngine) refine(env *stEnv, cond ssa.Value, taken bool) bool {
 	c, t := normCond(cond, taken)
 	switch x := c.(type) {
+	case *ssa.Phi:
+		bsx, ok := env.bs[x]
+		if !ok {
+			return true
+		}
+		old, known := env.vals[bsx.v]
+		if !known {
+			return true
+		}
+		ns := old & bsx.f
+		if t {
+			ns = old & bsx.t
+		}
+		if ns == 0 {
+			return false
+		}
+		env.vals[bsx.v] = ns
+		if env.alias[bsx.v] {
+			env.cur &= ns
+			if env.cur == 0 {
+				return false
+			}
+		}
+		return true
 	case *ssa.BinOp:
 		if x.Op != token.EQL && x.Op != token.NEQ {
 			return true
@@ -972,4 +1033,126 @@ func (r *StateRun) Transitions() []Transition {
 	}
 	sort.Slice(out, func(i, j int) bool { return out[i].Site.Pos() < out[j].Site.Pos() })
 	return out
+}
+
+// truthSets: for a boolean value computed from a test on a state-valued
+// variable, that variable and the states it can hold (within env) when the
+// value is true / false. ok=false if val is not such a test.
+func (e *stateEngine) truthSets(env *stEnv, val ssa.Value) (v ssa.Value, t, f StateSet, ok bool) {
+	c, pol := normCond(val, true)
+	switch x := c.(type) {
+	case *ssa.Phi:
+		if bsx, has := env.bs[x]; has {
+			cur := env.vals[bsx.v]
+			t, f = bsx.t&cur, bsx.f&cur
+			if !pol {
+				t, f = f, t
+			}
+			return bsx.v, t, f, true
+		}
+	case *ssa.BinOp, *ssa.Call:
+		// find the state-valued operand
+		var sv ssa.Value
+		switch y := x.(type) {
+		case *ssa.BinOp:
+			if y.Op != token.EQL && y.Op != token.NEQ {
+				return nil, 0, 0, false
+			}
+			if _, has := env.vals[y.X]; has {
+				sv = y.X
+			} else if _, has := env.vals[y.Y]; has {
+				sv = y.Y
+			}
+		case *ssa.Call:
+			for _, a := range y.Call.Args {
+				if _, has := env.vals[a]; has {
+					sv = a
+				}
+			}
+		}
+		if sv == nil {
+			return nil, 0, 0, false
+		}
+		old := env.vals[sv]
+		for _, want := range []bool{true, false} {
+			cl := env.clone()
+			var set StateSet
+			if e.refine(&cl, c, want) {
+				set = cl.vals[sv]
+			}
+			if want == pol {
+				t = set
+			} else {
+				f = set
+			}
+		}
+		_ = old
+		return sv, t, f, true
+	}
+	return nil, 0, 0, false
+}
+
+// edgeBools records, for every boolean φ at the head of succ, what the edge
+// pred→succ contributes to its truth sets (see stEnv.bs).
+func (e *stateEngine) edgeBools(env *stEnv, pred, succ *ssa.BasicBlock) {
+	idx := -1
+	for i, p := range succ.Preds {
+		if p == pred {
+			idx = i
+			break
+		}
+	}
+	if idx < 0 {
+		return
+	}
+	for _, in := range succ.Instrs {
+		phi, ok := in.(*ssa.Phi)
+		if !ok {
+			break
+		}
+		if bt, isB := phi.Type().Underlying().(*types.Basic); !isB || bt.Kind() != types.Bool {
+			continue
+		}
+		// which state variable is this boolean about?
+		var sv ssa.Value
+		for _, ed := range phi.Edges {
+			if v, _, _, ok := e.truthSets(env, ed); ok {
+				sv = v
+				break
+			}
+		}
+		if sv == nil {
+			// no edge is a state test in this environment: look at the comparisons syntactically
+			for _, ed := range phi.Edges {
+				if b, ok := ed.(*ssa.BinOp); ok && (b.Op == token.EQL || b.Op == token.NEQ) {
+					if _, has := env.vals[b.X]; has {
+						sv = b.X
+					} else if _, has := env.vals[b.Y]; has {
+						sv = b.Y
+					}
+				}
+			}
+		}
+		if sv == nil {
+			continue
+		}
+		cur := env.vals[sv]
+		ed := phi.Edges[idx]
+		var t, f StateSet
+		if k, isK := ed.(*ssa.Const); isK && k.Value != nil && k.Value.Kind() == constant.Bool {
+			if constant.BoolVal(k.Value) {
+				t = cur
+			} else {
+				f = cur
+			}
+		} else if v, tt, ff, ok := e.truthSets(env, ed); ok && v == sv {
+			t, f = tt, ff
+		} else {
+			t, f = cur, cur
+		}
+		if env.bs == nil {
+			env.bs = map[ssa.Value]boolSets{}
+		}
+		env.bs[phi] = boolSets{sv, t, f}
+	}
 }
